@@ -3,29 +3,29 @@
 import json
 
 T = {
- "C01": ("proof", "Coq theorems C01_cell / C01_layout (every operation sequence on a ledger cell, exact rationals) and C01_schedule (NoDup (resource, slot) for every project of the scheduler model); tie: exhaustive + random operation sequences on the real booking/release code vs the extracted cell model, whole core projects vs the extracted scheduler model, ledger oracle on sub-slot/ALAP projects", "3.C01"),
- "C02": ("proof", "Coq theorems: regenerated Python and Cython interval tests = declarative hours spec incl. cross-midnight (all tables, all instants); C02_schedule: every booking of the scheduler model lies in a working slot; tie: translator (regenerated every run) + calendar recomputed from the project text vs the implementation's ledger over zones/DST/leaves", "3.C02"),
- "C03": ("proof", "Coq theorems on the cell discipline (kept = min(need, booked)) and the whole-slot frame; effort arithmetic with efficiencies, teams and alternatives decided on the implementation by the oracle (partial: the efficiency arithmetic is not in the model)", "3.C03"),
- "C04": ("proof", "Coq theorem C04_asap for every project of the scheduler model (own + inherited + precedes edges, gaps, on-start, dated containers); ALAP half decided by the oracle on the implementation (partial)", "3.C04"),
- "C05": ("proof", "Coq theorems: regenerated period index = calendar day / Monday-week difference for all starts and slots; C05_schedule: usage <= value for every limit and period in every final state of the model; tie: translator + model correspondence + per-day / per-ISO-week aggregation of the implementation's ledger", "3.C05"),
- "C06": ("proof", "Coq theorem C06_frame (milestone start = end; start < end; team booked in the first and last slot; all bookings inside [start, end)) for the whole-slot model; sub-slot position, ALAP and milestones at mid-slot bounds decided by the oracle on the implementation (partial)", "3.C06"),
- "C07": ("proof", "the extracted Coq list scheduler (Model/Sched.v) is the reference implementation; Coq theorem C07_earliest_fit (every skipped slot was not bookable at that moment); tie: every project of the bounded universe (thorough) + random core projects, all dates and bookings compared", "3.C07"),
- "C08": ("proof", "Coq theorem C08_asap (no working unbooked slot between bound and end, final ledger) for the model; ALAP half decided by the oracle on the implementation (partial)", "3.C08"),
- "C09": ("proof", "Coq theorem on the model (intruder declared last) + two-run comparison on the implementation for random intruders", "3.C09"),
- "C10": ("proof", "Coq theorem C10_summary (container dates exist iff all leaves below are placed; min start / max end) + leaf-only work list; tie: model correspondence on random trees + oracle at every nesting level", "3.C10"),
- "C11": ("proof", "Coq: the model is a total function on structural fuel (terminates within #leaves x (#slots+1) steps), no slot outside the horizon is touched, placed tasks lie inside the horizon; infeasible-project generator and corrupted texts in isolated workers (partial: Lark and the transformer are exercised by fault injection only)", "3.C11"),
- "C12": ("proof", "Coq theorem on the global-state model (every run re-initialises the attribute mode before reading it; result independent of the state left by any history, incl. failing runs; schedule of a scheduled scenario is the identity) + histories in one interpreter (fresh / reused parser object, failing runs, repeated runs, second schedule()) and further hash seeds compared with a fresh process (partial: interpreter-level nondeterminism is covered by the runs only)", "3.C12"),
- "C14": ("proof", "Coq theorems: per-slot working table and per-slot limit period table (regenerated period index, hours spec proved equal to the regenerated on-shift tests) are invariant under moving the start and all leave intervals by whole weeks - all tables, starts, resolutions, horizons; tie: translator + shifted/unshifted runs of the implementation for 13 week offsets up to 300 weeks", "3.C14"),
- "C15": ("proof", "Coq theorems on the reference-resolution model (renaming invariance, relative = absolute, precedes inversion keeps the edge set) + six meaning-preserving rewrites applied to generated projects and run through the real parser (partial: the Lark grammar is not modelled)", "3.C15"),
- "C16": ("proof", "Coq theorems on the scenario-view model (effective value = own, else nearest ancestor scenario, else base; scenario without overrides = parent; an override is local to its subtree; the scenario loop touches one component) + every scenario of multi-scenario runs compared (dates and full ledger) with the single-scenario project of its effective values", "3.C16"),
- "C18": ("proof", "Coq theorems on the report-table model (rows = tasks in declaration order filtered by leaf flag; JSON cell = CSV cell for distinct titles; rendering does not change the schedule) + API and file renderings of generated reports compared with cells recomputed from the schedule and the ledger (partial: strftime/json/csv are oracles)", "3.C18"),
- "C19": ("proof", "Coq theorems on the decision table of 'plan report' (exit status per input class, stdout = render(auto report) with report_id = hash of the input, independence of channel and of own reports) + the real entry point as a subprocess over input classes x channels x formats (partial: click and the OS are runtime)", "3.C19"),
- "C20": ("proof", "Coq theorems: every exit path of the temp-file state machine removes what it created; runs over disjoint name sets commute under every interleaving (induction over the interleaving) + directory listings on every exit path and N concurrent real runs compared with solitary runs (partial: the concurrent runs are testing; name freshness is assumed)", "3.C20"),
- "C13": ("proof", "Coq theorems: each regenerated Cython function = its regenerated Python twin for all arguments in the no-wrap range (C ints written out as 32-bit wrap, cdivision semantics), return C types not narrower; tie: both sides regenerated every run + grid correspondence against the rebuilt .so and the fallback; whole projects with the extensions blocked", "3.C13"),
- "C17": ("proof", "Coq theorems on the regenerated functions: strict monotonicity, index(time(i)) = i, floor-inverse bracket, table covers [start, end], rejection / clamping, interval scanner (Python method and Cython kernel) = maximal runs of minimum length clipped to the window; tie: translator + exhaustive bounded grid on both twins", "3.C17"),
+ "C01": ("proof", "Coq: C01_cell / C01_layout (every operation sequence on a ledger cell, exact rationals); C01_schedule, C01_alap (no (resource, slot) twice, forward and backward slot models); C01_subslot, C01_subslot_teams (the cell invariant holds in EVERY cell of every final ledger of the second-granularity models). Tie: operation sequences on the real bookResource/release code vs the extracted cell model; generated projects vs the extracted slot / second-granularity / team models; ledger oracle", "3.C01"),
+ "C02": ("proof", "Coq: regenerated Python and Cython interval tests = declarative hours spec incl. cross-midnight; C02_schedule, C02_alap, C02_subslot(_teams) (bookings only in working slots); C02_calendar (calendar computed inside the model from hours, leaves, vacations, holidays, blocking bookings). Tie: translator; calendar recomputed by the harness (zoneinfo is an oracle); model correspondence. Known finding K01", "3.C02"),
+ "C03": ("proof", "Coq: C03_exact_slots, C03_alap (exactly t_need whole-team blocks); C03_release (cell); C03_subslot (second granularity: one entry per booked slot, none elsewhere, effort - 3.6us <= sum x efficiency <= effort); C03_subslot_teams (every member the same seconds in every slot). Tie: extracted models vs implementation (dates to the second, ledger to the millisecond) + oracle (alternatives, ALAP at second granularity: oracle only)", "3.C03"),
+ "C04": ("proof", "Coq: C04_asap, C04_alap (backward scheduler = mirror of the forward model), C04_subslot (gaps in seconds, mid-slot bounds). Tie: model correspondence on forward, backward and second-granularity projects + oracle (task-level ALAP: oracle only)", "3.C04"),
+ "C05": ("proof", "Coq: regenerated period index = calendar day / Monday week for all starts and slots; C05_schedule, C05_alap (usage <= value per limit and period); C05_subslot / C05_subslot_ledger (second granularity: a limit counts bookings; the cells holding counted work in a period are at most value many). Tie: translator + model correspondence + per-day / per-ISO-week aggregation of the implementation's ledger", "3.C05"),
+ "C06": ("proof", "Coq: C06_frame, C06_alap (start < end, team booked in first and last slot, all bookings inside [start, end)); C06_subslot (+ overlap clauses of C03_subslot). Tie: model correspondence + oracle (position inside shared slots via C01_layout; ALAP at second granularity: oracle)", "3.C06"),
+ "C07": ("proof", "the extracted Coq list scheduler (Model/Sched.v) is the reference implementation the property names; Coq: C07_earliest_fit. Tie: every project of the bounded universe (thorough) / a sample (quick) + random core projects; every disagreement is a failing input", "3.C07"),
+ "C08": ("proof", "Coq: C08_asap, C08_alap (single unlimited resource), C08_asap_teams_and_limits, C08_alap_teams_and_limits (skipped slot => member off, member booked elsewhere, or a limit without room for the team, stated on the final ledger), C08_subslot (second granularity: skipped slot is non-working, full or closed by a limit in the final ledger). Tie: model correspondence + oracles c08 / c08_team", "3.C08"),
+ "C09": ("proof", "Coq: C09_lowest_priority_harmless (simulation of the two runs), C09_served_last, C09_alap. Tie: two-run comparison on the implementation for random intruders (any declaration position, forward and backward)", "3.C09"),
+ "C10": ("proof", "Coq: C10_summary, C10_alap, C10_subslot (container dates iff all leaves placed; min start / max end), C10_leaf_only. Tie: model correspondence on random trees + oracle at every nesting level (resource groups in allocations, containers of dated milestones)", "3.C10"),
+ "C11": ("proof", "Coq: the models are total functions on structural fuel; C11_slots_in_horizon, C11_dates_in_horizon, C11_alap, C11_subslot. Partial: Lark, the transformer and everything before the scheduler are exercised by the infeasible-project generator and corrupted texts in isolated workers with time limits (testing, labelled so)", "3.C11"),
+ "C12": ("proof", "Coq: C12_history (result independent of the process-global state left by any history), C12_needs_reset, C12_reschedule. Tie: histories in one interpreter, hash seeds, repeated schedule() on the implementation (partial: parser-object reuse, report bytes by runs)", "3.C12"),
+ "C14": ("proof", "Coq: C14_working_table, C14_period_table, C14_period_index (invariant under whole-week shifts, no case analysis on month/year ends). Tie: shifted / unshifted runs for 13 offsets up to 300 weeks incl. year-end vacations and month bookings", "3.C14"),
+ "C15": ("proof", "Coq: C15_rename_absolute/relative, C15_relative_absolute, C15_precedes, C15_bound_order_independent (Model/Parse.v). Tie: every written reference resolved by the EXTRACTED model vs _resolve_task_reference / _resolve_precedes; six meaning-preserving rewrites through the real parser (partial: Lark; comments, macros, inline shifts by rewrite runs)", "3.C15"),
+ "C16": ("proof", "Coq: C16_same, C16_root_default, C16_local, C16_add (Model/Scenario.v). Tie: effective values computed by the EXTRACTED eff; every scenario of a multi-scenario run = the single-scenario project of its effective values (dates, ledger; horizon for the first scenario)", "3.C16"),
+ "C18": ("proof", "Coq: C18_rows, C18_all_tasks, C18_cells, C18_json_csv (Model/Report.v). Tie: rows, order, header and JSON dict semantics computed by the EXTRACTED model from the harness's cell texts vs to_csv / to_json / generated files (partial: strftime, json, csv)", "3.C18"),
+ "C19": ("proof", "Coq: C19_exit_status, C19_stdout_only_on_success, C19_report_id, C19_channel, C19_own_reports (Model/Cli.v). Tie: expected exit status / stdout / diagnostics of every run produced by the EXTRACTED plan_report; real entry point as a subprocess (partial: click, OS)", "3.C19"),
+ "C20": ("proof", "Coq: C20_cleanup, C20_private_names, C20_commute (any interleaving of processes over disjoint names). Tie: temp-file creation/removal order observed with strace vs the EXTRACTED trace; directory listings on every exit path; N concurrent real runs (testing, labelled so). Known finding K02", "3.C20"),
+ "C13": ("proof", "Coq: each regenerated Cython function = its regenerated Python twin in the no-wrap range (C ints as 32-bit wrap, cdivision semantics), return types not narrower. Tie: both twins regenerated every run; grid on both (rebuilt .so) and on the extracted functions; whole projects with the extensions blocked", "3.C13"),
+ "C17": ("proof", "Coq: ten theorems on the regenerated index/time functions, C17_collect_python/_cython (= maximal runs of minimum length, clipped), C17_runs_are_the_maximal_runs. Tie: translator; grids incl. resolutions that do not divide a day", "3.C17"),
 }
 NOTE = ("trusted base: Coq 8.16.1 kernel + vm_compute for Examples; no axioms (Print Assumptions: closed under the global context); translator translate/py2v.py; "
-        "extraction via ExtrOcamlBasic + ocaml drivers; the Python harness (generators, renderer, calendar recomputation, comparators); floats modelled as exact rationals; "
+        "extraction via ExtrOcamlBasic + ocaml drivers (gendriver, scheddriver, miscdriver); coqchk -o on all Props libraries: no axioms; the Python harness (generators, renderer, calendar recomputation, comparators); floats modelled as exact rationals; "
         "not modelled: Lark/grammar, zoneinfo, datetime/strftime, click, json/csv, the OS")
 
 def main():
@@ -45,7 +45,7 @@ def main():
          "engines": [{"name": "coq+correspondence", "path": "/verif/check", "serves_properties": sorted(T),
                       "kind_free_text": "Coq 8.16 development under /verif/coq (Gen/ regenerated from /repo by translate/py2v.py on every run), extracted OCaml drivers, Python correspondence harness under /verif/harness"}],
          "checks": checks, "not_applicable": na,
-         "notes": "every check rebuilds from /repo's working tree: rsync to a scratch dir, Cython extensions rebuilt from the current .pyx, Gen/*.v regenerated, full coq_makefile .vo build, extraction + ocamlfind. known_findings.json lists 31 fixed defects and 1 known finding (K01)."}
+         "notes": "every check rebuilds from /repo's working tree: rsync to a scratch dir, Cython extensions rebuilt from the current .pyx, Gen/*.v regenerated, full coq_makefile .vo build, extraction + ocamlfind. known_findings.json lists the repaired defects (fixed) and the known findings K01, K02."}
     json.dump(m, open("/verif/MANIFEST.json", "w"), indent=1)
     print(len(checks), "checks,", len(na), "not yet claimed")
 
